@@ -26,10 +26,19 @@ print('SUITE with change: %d stable tests, missing %d'%(len(base),len(missing)))
 for t in missing[:5]: print('   MISSING',t)
 PY
 rm -f test_outputs/*/actual_*
+# a demonstration is a Go test file (copied into <package-dir>) or a shell script (run from the worktree root; PKG and RUN ignored)
+if [[ "$DEMO" == *.sh ]]; then
+  export BIN=/tmp/seed/confirm-$ID.bin
+  sh SEEDED/$(basename $DEMO) > /tmp/seed/confirm-$ID.with 2>&1; W=$?
+  git apply -R $SD/patch.diff
+  sh SEEDED/$(basename $DEMO) > /tmp/seed/confirm-$ID.without 2>&1; WO=$?
+  rm -f $BIN
+else
 cp $DEMO $PKG/zz_seeded_demo_test.go
 go test -vet=off -count=1 -run "$RUN" ./$PKG/ > /tmp/seed/confirm-$ID.with 2>&1; W=$?
 git apply -R $SD/patch.diff
 go test -vet=off -count=1 -run "$RUN" ./$PKG/ > /tmp/seed/confirm-$ID.without 2>&1; WO=$?
+fi
 echo "DEMO with change: exit $W (expect non-zero); without: exit $WO (expect 0)"
 tail -3 /tmp/seed/confirm-$ID.with | cut -c1-200
 cd /; git -C /repo worktree remove --force $WT; rm -f /tmp/seed/confirm-$ID.json
